@@ -8,6 +8,7 @@ import (
 
 // c07RunAll runs the sequential part and (when built) the SCHED witness part.
 func c07RunAll(c *fw.Ctx) {
+	defer cleanupKit()
 	c07Run(c)
 	c07Sched(c)
 }
